@@ -1,5 +1,6 @@
 (* Property C13: a variable aliasing a sub-range of a vector reports exactly that sub-range. *)
-From WV Require Import Model.Base Model.Bits Model.Slice Proofs.BitsProofs Proofs.SliceProofs.
+From WV Require Import Model.Base Model.Bits Model.WaveMem Model.Slice Spec.StoreSpec Proofs.BitsProofs Proofs.StoreProofs Proofs.EncoderProofs
+  Proofs.SliceProofs Proofs.SliceSignalProofs.
 Open Scope N_scope.
 
 (* for every state kind, parent width and sub-range strictly inside the parent: slicing the packed
@@ -26,6 +27,50 @@ Check packed_symbol :
   exists b, nth_error data ((max_bits - S i) / per_byte st) = Some b /\
             digit st b (i mod per_byte st) = nth (length syms - 1 - i) syms 0.
 
+(* slicing depends only on the symbols the data renders to, whatever the unused high bits of its first byte hold
+   (they carry the kind of the entry in a loaded signal) *)
+Check slice_n_states_sem :
+  forall debug st data syms msb lsb, small_syms st syms ->
+  length data = div_ceil (length syms) (per_byte st) ->
+  n_state_symbols st data (length syms) = Ok syms ->
+  (lsb <= msb < length syms)%nat -> (msb - lsb + 1 < length syms)%nat ->
+  slice_n_states debug st data msb lsb (length syms)
+  = Ok (write_n_state_loop st (firstn (msb - lsb + 1) (skipn (length syms - 1 - msb) syms)) 0 None).
+
+(* the whole slicer (slice_signal / slice_bit_vector / BitVectorBuilder), for every parent signal made of entries
+   of any kinds <= mx, every proper sub-range, debug and release: the result reports for every parent entry the
+   characters [msb:lsb] in their least sufficient kind at the same time index; an entry whose slice equals the slice
+   before it is dropped (the slice changes only when the sub-range changes) *)
+Check slice_signal_spec :
+  forall debug mx bits msb lsb, (lsb <= msb < bits)%nat -> (msb - lsb + 1 < bits)%nat ->
+  forall abs, (1 <= bits)%nat -> Forall (parent_ok mx bits) abs ->
+  exists sig',
+    slice_signal debug (mk_signal (map fst (map (wide_of mx bits) abs)) (parent_data mx bits abs)) msb lsb = Ok sig' /\
+    observe_signal sig' = outcome_map render_of (dedup (map (slice_entry bits msb lsb) abs)).
+
+(* record -> load -> slice: whatever history was recorded for the parent vector *)
+Check recorded_then_sliced :
+  forall (parse_f64 : list byte -> option (list byte)) (lz_compress : list byte -> list byte)
+         (lz_decompress : list byte -> nat -> option (list byte)),
+  (forall d n, (length d <= n)%nat -> lz_decompress (lz_compress d) n = Some d) ->
+  forall cap, 1 <= cap -> cap <= 65536 -> forall id bits, (1 <= bits)%nat ->
+  forall debug msb lsb tpes ops e blocks ttb,
+  (lsb <= msb < bits)%nat -> (msb - lsb + 1 < bits)%nat ->
+  nth_error tpes id = Some (EncBits bits) ->
+  Forall (op_ok id bits) ops ->
+  N.of_nat (count_vcd id ops) * (10 + N.of_nat bits) < 4294967264 ->
+  run_ops parse_f64 lz_compress cap (enc_new tpes) ops = Ok e ->
+  enc_finish lz_compress e = Ok (blocks, ttb) ->
+  N.of_nat (length ttb) < 4294967296 ->
+  exists R parent sliced,
+    Forall2 (decodes bits) R (recorded id ops [] false) /\
+    load_signal lz_decompress blocks id (EncBits bits) = Ok parent /\
+    slice_signal debug parent msb lsb = Ok sliced /\
+    observe_signal sliced = outcome_map render_of (dedup (map (slice_entry bits msb lsb) (dedup R))).
+
 Print Assumptions slice_n_states_spec.
+Print Assumptions slice_n_states_sem.
+Print Assumptions slice_signal_spec.
+Print Assumptions recorded_then_sliced.
 Print Assumptions slice_renders_substring.
 Print Assumptions packed_symbol.
